@@ -393,6 +393,7 @@ void XMLAbstractDoubleFloat::normalizeZero(XMLCh* const inData)
 	// scan the string
 	
 	bool  isValidStr = true;
+	bool  zeroSeen = false;                     // a zero needs at least one digit: "+." and "-." are not numbers
     XMLCh theChar;
 	while ((theChar=*srcStr++)!=0 && isValidStr)
 	{
@@ -400,13 +401,15 @@ void XMLAbstractDoubleFloat::normalizeZero(XMLCh* const inData)
 			isValidStr = false;           		// invalid char
         else if (theChar == chPeriod)           // process dot
 			dotSeen ? isValidStr = false : dotSeen = true;
+        else
+            zeroSeen = true;
 	}
 
 	// need not to worry about the memory problem
 	// since either fgNegZeroString or fgPosZeroString
 	// is the canonical form (meaning the shortest in length)
 	// of their category respectively.
-	if (isValidStr)
+	if (isValidStr && zeroSeen)
 	{
 		if (minusSeen)
 			XMLString::copyString(inData, XMLUni::fgNegZeroString);
